@@ -611,6 +611,11 @@ func (i *Install) recordRelease(r *release.Release) error {
 // This allows us to reuse names by superseding an existing release with a new one
 func (i *Install) replaceRelease(rel *release.Release) error {
 	hist, err := i.cfg.Releases.History(rel.Name)
+	if err != nil && !errors.Is(err, driver.ErrReleaseNotFound) {
+		// Not knowing the history is not the same as there being none: the
+		// new release would be stored as revision 1 next to the old records.
+		return errors.Wrapf(err, "unable to read the history of release %q", rel.Name)
+	}
 	if err != nil || len(hist) == 0 {
 		// No releases exist for this name, so we can return early
 		return nil
